@@ -443,6 +443,12 @@ func C16(p *core.Program, r *core.Report) {
 			for _, ret := range core.Returns(cl) {
 				rets = append(rets, c.Of(ret.Results[0]))
 			}
+			// (the test may in turn call a helper of the package that does the comparing)
+			if icl := p.Inlined(cl); icl != nil && icl != cl {
+				for _, ret := range core.Returns(icl) {
+					rets = append(rets, c.Of(ret.Results[0]))
+				}
+			}
 			sort.Strings(rets)
 			for _, s := range rets {
 				if strings.Contains(s, "stringutil.UnescapedString(url.Parse($0)#0) == ") || strings.Contains(s, "== stringutil.UnescapedString(url.Parse($0)#0)") {
